@@ -1029,6 +1029,11 @@ pub fn is_classgroup_threads_scenario(prop: &str, idx: u64) -> bool {
     prop == "C04" && idx % 16 == 6 && std::env::var("VERIF_SPEC").is_err()
 }
 
+/// C05 only: scenario indices with concurrent callers sharing one `Preferences` and its abort callback.
+pub fn is_multicaller_abort_scenario(prop: &str, idx: u64) -> bool {
+    prop == "C05" && idx % 16 == 9 && std::env::var("VERIF_SPEC").is_err()
+}
+
 /// C05 only: scenario indices that abort `classgroup::classgroup` instead of `factor`.
 pub fn is_classgroup_abort_scenario(prop: &str, idx: u64) -> bool {
     prop == "C05" && idx % 8 == 5
@@ -1050,7 +1055,7 @@ impl Family for FactorFamily {
             tier.name(),
             match prop {
                 "C04" => "[one scenario in eight (index = 3 mod 8) is of another kind: 2-3 concurrent caller threads run factor() on ONE shared &Preferences, each call with its own pool, a share of the callers on >128-bit inputs with a P-1-smooth factor; references = sequential single-threaded executions of the same calls with the P-1 latch unset and set; 12 (quick) / 32 (thorough) schedules each; one scenario in sixteen (index = 6 mod 16) runs classgroup::classgroup with 2-16 workers on the C18 workload and judges termination and panics of the shared CRelationSet / the sieve driver only] ",
-                "C05" => "[one scenario in eight (index = 5 mod 8) aborts classgroup::classgroup instead: fundamental discriminants of 33-96 bits (112 thorough), every poll instant single-threaded, then 12 (quick) / 32 (thorough) runs abort@poll/time/region x 2-16 workers x schedule; judged once an evaluation of the predicate has answered true] ",
+                "C05" => "[one scenario in eight (index = 5 mod 8) aborts classgroup::classgroup instead: fundamental discriminants of 33-96 bits (112 thorough), every poll instant single-threaded, then 12 (quick) / 32 (thorough) runs abort@poll/time/region x 2-16 workers x schedule; judged once an evaluation of the predicate has answered true; one scenario in sixteen (index = 9 mod 16) runs 2-3 concurrent factor() callers that share one &Preferences and therefore the abort callback] ",
                 _ => "",
             },
             if prop == "C01" {
@@ -1085,6 +1090,10 @@ impl Family for FactorFamily {
         if is_classgroup_abort_scenario(prop, idx) {
             // C05 is anchored in classgroup.rs too: one scenario in eight aborts classgroup()
             return crate::scen::clsabort::run_c05(tier, seed, idx);
+        }
+        if is_multicaller_abort_scenario(prop, idx) {
+            // one scenario in sixteen: concurrent callers sharing the abort callback
+            return crate::scen::multicaller::run_c05(tier, seed, idx);
         }
         if is_multicaller_scenario(prop, idx) {
             // C04: one scenario in eight runs several concurrent callers on one shared Preferences
@@ -1427,7 +1436,7 @@ impl Family for FactorFamily {
         if is_classgroup_abort_scenario(prop, idx) {
             return crate::scen::clsabort::ClsAbortFamily.describe(prop, tier, seed, idx);
         }
-        if is_multicaller_scenario(prop, idx) {
+        if is_multicaller_scenario(prop, idx) || is_multicaller_abort_scenario(prop, idx) {
             return crate::scen::multicaller::MultiCallerFamily.describe(prop, tier, seed, idx);
         }
         if is_classgroup_threads_scenario(prop, idx) {
